@@ -72,10 +72,24 @@ StrOffsets(lens)   == [j \in 1..Len(lens) |-> StrOff(lens, j)]
 StrResolve(lens, o) == IF \E j \in 1..Len(lens) : StrOff(lens, j) = o
                        THEN CHOOSE j \in 1..Len(lens) : StrOff(lens, j) = o ELSE 0
 
+\* ------------------------------------------------------------------ lists of lists
+\* Visible-block lists: MOVV holds one byte offset per list into MOVB, where the list's u16 entries
+\* are followed by a 0xFFFF terminator -- also for an empty list (it owns its terminator).
+VblAdvance(len)   == IF "vbl_empty_shared" \in Dev /\ len = 0 THEN 0 ELSE (len + 1) * 2
+VblOff(lens, idx) == Sum([j \in 1..(idx - 1) |-> VblAdvance(lens[j])])
+VblSize(lens)     == Sum([j \in 1..Len(lens) |-> VblAdvance(lens[j])])
+\* the bytes list idx occupies: [VblOff, VblOff + 2*(len+1))
+VblRegionsOk(lens) ==
+    /\ \A a \in 1..Len(lens), b \in 1..Len(lens) :
+          a < b => VblOff(lens, a) + 2 * (lens[a] + 1) <= VblOff(lens, b)
+    /\ (Len(lens) > 0 => VblOff(lens, Len(lens)) + 2 * (lens[Len(lens)] + 1) = VblSize(lens))
+\* Portals: MOPT record idx addresses pvlens[idx] vertices of MOPV starting at PortalStart
+PortalStart(pvlens, idx) == Sum([j \in 1..(idx - 1) |-> pvlens[j]])
+
 \* ------------------------------------------------------------------ shapes
 \* A root shape: list lengths and the lengths of the strings in the three tables.
-\*   [kind |-> "root", ver, ntex, nmat, ngrp, nport, npv (portal vertices per portal), npref, nvbl,
-\*    vbl (entries per visible list), nlight, ndd, nds, sky (0/1), skylen, texlens, grplens, ddlens]
+\*   [kind |-> "root", ver, ntex, nmat, ngrp, nport, pvlens (vertices of each portal; 0 allowed), npref, nvbl,
+\*    vbllens (entries of each visible-block list; 0 allowed), nlight, ndd, nds, sky (0/1), skylen, texlens, grplens, ddlens]
 \* A group shape:
 \*   [kind |-> "group", ver, nvert, nidx, nnorm, ntc, ncol (-1 = None), nbatch, nbsp (-1 = None),
 \*    liq (0 none, 1 without tile flags, 2 with), lw, lh, ndref (-1 = None)]
@@ -97,11 +111,12 @@ RootPlan(sh) ==
     \o Opt(sh.ngrp > 0,  Leaf("MOGN", StrTabSize(sh.grplens)))
     \o Opt(sh.ngrp > 0,  Leaf("MOGI", sh.ngrp * Elem.MOGI))
     \o Opt(sh.sky = 1 /\ SupportsSkybox(sh.ver), Leaf("MOSB", sh.skylen + 1))
-    \o Opt(sh.nport > 0, Leaf("MOPV", sh.nport * sh.npv * Elem.MOPV))
+    \* MOPV accompanies MOPT even when no portal has a vertex (readers need both chunks)
+    \o Opt(sh.nport > 0 /\ ~("mopv_skip_empty" \in Dev /\ Sum(sh.pvlens) = 0), Leaf("MOPV", Sum(sh.pvlens) * Elem.MOPV))
     \o Opt(sh.nport > 0, Leaf("MOPT", sh.nport * Elem.MOPT))
     \o Opt(sh.npref > 0, Leaf("MOPR", sh.npref * Elem.MOPR))
     \o Opt(sh.nvbl > 0,  Leaf("MOVV", sh.nvbl * Elem.MOVV))
-    \o Opt(sh.nvbl > 0,  Leaf("MOVB", sh.nvbl * (sh.vbl + 1) * 2))
+    \o Opt(sh.nvbl > 0,  Leaf("MOVB", VblSize(sh.vbllens)))
     \o Opt(sh.nlight > 0, Leaf("MOLT", sh.nlight * Elem.MOLT))
     \o Opt(sh.ndd > 0,   Leaf("MODN", StrTabSize(sh.ddlens)))
     \o Opt(sh.ndd > 0,   Leaf("MODD", sh.ndd * Elem.MODD))
@@ -253,6 +268,13 @@ DoneGroupSizes == (lphase = "done" /\ lsh.kind = "group") =>
     /\ SizeOfTag(llog, "MONR") = lsh.nnorm * Elem.MONR /\ SizeOfTag(llog, "MOTV") = lsh.ntc * Elem.MOTV
     /\ SizeOfTag(llog, "MOBA") = lsh.nbatch * Elem.MOBA
 \* string-table offsets: every MOGI record's name offset resolves to the group's own name
+\* lists of lists: every visible-block list owns a disjoint MOVB region ending in its terminator;
+\* MOPT never comes without MOPV and the portal vertex ranges lie inside MOPV
+DoneLists == (lphase = "done" /\ lsh.kind = "root") =>
+    /\ VblRegionsOk(lsh.vbllens)
+    /\ SizeOfTag(llog, "MOVB") = VblSize(lsh.vbllens)
+    /\ (HasTag(llog, "MOPT") => HasTag(llog, "MOPV"))
+    /\ \A j \in 1..lsh.nport : (PortalStart(lsh.pvlens, j) + lsh.pvlens[j]) * Elem.MOPV <= SizeOfTag(llog, "MOPV")
 DoneStrings == (lphase = "done" /\ lsh.kind = "root") =>
     /\ \A j \in 1..lsh.ngrp : StrResolve(lsh.grplens, MogiNameOffsets(lsh)[j]) = j
     /\ \A j \in 1..lsh.ntex : /\ StrResolve(lsh.texlens, StrOff(lsh.texlens, j)) = j
@@ -276,12 +298,13 @@ GroupApiSections == {"vertices", "indices", "normals", "tex_coords", "vertex_col
 \* Conversion a -> b keeps every section representable in both versions.  Conservative
 \* definition: version-gated fields are projected away (the driver logs both the full and the
 \* projected token; the spec chooses which one is owed).
-\*   skybox            representable iff both versions support skybox references
+\*   skybox            kept iff the target version supports skybox references (every v17 file parses
+\*                     as Classic, so a "Classic" object legitimately carries the skybox of a WotLK file)
 \*   materials         a >= MoP > b: shadow-batch flag bits projected away ("materials_noshadow")
 \*   ghdr (group)      a # b: version-gated group flag bits projected away ("ghdr_base")
 ConvRootOwed(a, b) ==
     (RootSections \ {"skybox", "materials", "header"})
-    \cup (IF a = b \/ (SupportsSkybox(a) /\ SupportsSkybox(b)) THEN {"skybox"} ELSE {})
+    \cup (IF a = b \/ SupportsSkybox(b) THEN {"skybox"} ELSE {})
     \cup (IF a >= VMop /\ b < VMop THEN {"materials_noshadow"} ELSE {"materials"})
     \cup {"header"}
 ConvGroupOwed(a, b) ==
